@@ -660,12 +660,14 @@ bool same_shape(PyArrayObject* a, PyArrayObject* b) {
     return true;
 }
 
+// The kernels read elements as native C values: an array stored in the other byte order is not
+// an array they can work on (it would be processed on its byte-swapped values).
 inline
-bool are_arrays(PyArrayObject* a) { return PyArray_Check(a); }
+bool are_arrays(PyArrayObject* a) { return PyArray_Check(a) && PyArray_ISNOTSWAPPED(a); }
 inline
-bool are_arrays(PyArrayObject* a, PyArrayObject* b) { return PyArray_Check(a) && PyArray_Check(b); }
+bool are_arrays(PyArrayObject* a, PyArrayObject* b) { return are_arrays(a) && are_arrays(b); }
 inline
-bool are_arrays(PyArrayObject* a, PyArrayObject* b, PyArrayObject* c) { return PyArray_Check(a) && PyArray_Check(b) && PyArray_Check(c); }
+bool are_arrays(PyArrayObject* a, PyArrayObject* b, PyArrayObject* c) { return are_arrays(a) && are_arrays(b) && are_arrays(c); }
 
 
 inline
